@@ -12,6 +12,8 @@ import Proofs.GoTieScryptCtor
 import Proofs.GoTieCliLazy
 import Proofs.GoTieCliEncId
 import Proofs.GoTieCliModes
+import Proofs.GoTieNative
+import Props.C01
 namespace AgeModel
 namespace Tie.C10
 
@@ -194,6 +196,30 @@ theorem encryptPass_tie {ζ ρ τ : Type} (Pr : τ → Go.M (Bytes × Option Go.
               Cfg r.1
               E [r.1] inp out armor r.2.2) :=
   GoTie.encryptPass_tie Pr NS Cfg E inp out armor t0
+
+/-! ### The passphrase recipient end to end, stated about the CODE
+
+The translated `(*ScryptRecipient).Wrap` followed by the translated `(*ScryptIdentity).unwrap`: for EVERY passphrase,
+every work factor the identity's bound admits (1 ≤ logN ≤ 30, logN ≤ maxWF), every 16-byte file key and every tape that
+holds a salt, the stanza the source's `Wrap` produces is opened by the source's `unwrap` under the same passphrase to
+exactly that file key (the two ties composed with `Props.C01.scrypt_wrap_unwrap`). -/
+
+theorem code_scrypt_wrap_unwrap (P : Prims) (hP : P.Correct) {κ : Type} (E : GoTie.NativeEnv P κ)
+    (pw fk tape : Bytes) (logN maxWF : Nat) (h1 : 1 ≤ logN) (h30 : logN ≤ 30) (hmax : logN ≤ maxWF) (hfk : fk.length = 16)
+    (salt t : Bytes) (hd : draw scryptSaltSize tape = some (salt, t)) :
+    Extracted.age_ScryptRecipient_Wrap (GoTie.tapeRead E.eRand) E.Enc E.K E.Seal ⟨pw, Int.ofNat logN⟩ fk tape =
+        .ok ([GoTie.toGoStanza (wrapScrypt P pw logN salt fk)], none, t) ∧
+      ∃ r, Extracted.age_ScryptIdentity_unwrap E.D E.K E.A ⟨pw, Int.ofNat maxWF⟩ (GoTie.toGoStanza (wrapScrypt P pw logN salt fk)) = .ok r ∧
+        GoTie.resClass r = .key fk := by
+  have hsalt : salt.length = 16 := by
+    have := GoTie.draw_length hd
+    simpa [scryptSaltSize] using this
+  constructor
+  · obtain ⟨res, hrun, hres⟩ := GoTie.scrypt_wrap_tie P E pw logN (by omega) fk tape
+    rw [hd] at hres
+    rw [hrun, hres]
+  · obtain ⟨r, hrun, hcls⟩ := scrypt_unwrap_tie P E.toScryptEnv pw maxWF (wrapScrypt P pw logN salt fk)
+    exact ⟨r, hrun, by rw [hcls, Props.C01.scrypt_wrap_unwrap P hP pw salt fk logN maxWF h1 h30 hmax hsalt hfk]⟩
 
 end Tie.C10
 end AgeModel
